@@ -7,7 +7,7 @@ import FluteModel.Legacy
   range, checked-arithmetic overflow, shift overflow, `unwrap`, `debug_assert!`) and of a loop running out
   of fuel (`hang`).  The theorems quantify over EVERY datagram `d : List UInt8`.
   They hold for the repaired code (D1 `data[3]` on a 3-byte datagram, D2 RS-GF(2^8) `max_n - B`,
-  D22 RS-GF(2^m) shift by `m ≥ 32`): the model mirrors the tree after those `fix:` commits.
+  D34 RS-GF(2^m) shift by `m ≥ 32`): the model mirrors the tree after those `fix:` commits.
 -/
 namespace Flute.Props.C04.Wire
 open Flute Flute.Bytes Flute.Lct Flute.Fti Flute.Alc
